@@ -337,15 +337,28 @@ class C05(Check):
             self.undecided_ob("L3", MOD, rd.name, "map-direction", rd, f"reader shape not classifiable ({cls})")
         # L4
         rp = mod.func("_repack_stoichiometries")
-        aug = [(norm(s.target), type(s.op).__name__, norm(s.value), norm(sc2)) for lp in rp.body if isinstance(lp, ast.For)
-               for s in lp.body if isinstance(s, ast.AugAssign) for sc2 in [lp.iter]]
+        made = {norm(s_.targets[0]): norm(s_.value) for s_ in strip_docstring(rp.body) if isinstance(s_, ast.Assign) and isinstance(s_.targets[0], ast.Name)}
+        got4 = {}
+        for lp4 in [l for l in strip_docstring(rp.body) if isinstance(l, ast.For) and isinstance(l.target, ast.Name)]:
+            si4 = SymInterp()
+            o4 = si4.block(lp4.body, [si4.assign(lp4.target, si4.item(lp4.iter, 0, Sym()), Sym())])
+            X = f"ITEM(0, {norm(lp4.iter)})"
+            ends4 = list(o4.normal) + list(o4.continues)
+            sts4 = [st.stores() for st in ends4]
+            if len(ends4) == 1 and len(sts4[0]) == 1:
+                tgt, val = sts4[0][0]
+                d_ = tgt[: -len(f"[{X}]")] if tgt.endswith(f"[{X}]") else None
+                if d_ is not None:
+                    for op_, nm_ in (("-", "Sub"), ("+", "Add")):
+                        if val == f"{d_}.get({X}, 0) {op_} 1" or (val == f"{d_}[{X}] {op_} 1" and made.get(d_) in ("defaultdict(int)", "collections.defaultdict(int)", "Counter()")):
+                            got4[norm(lp4.iter)] = nm_
         want = {("new_stoichiometries[arg]", "Sub", "1", "new_substrates"), ("new_stoichiometries[arg]", "Add", "1", "new_products")}
         for w in sorted(want):
             cons = f"unit-{w[1]}-{w[3]}"
-            if w in set(aug):
+            if got4.get(w[3]) == w[1]:
                 self.holds("L4", MOD, rp.name, cons, rp, f"each occurrence in {w[3]} changes the coefficient by {'-' if w[1] == 'Sub' else '+'}1")
             else:
-                self.violated("L4", MOD, rp.name, cons, rp, f"occurrences in {w[3]} do not change the coefficient by exactly {'-' if w[1] == 'Sub' else '+'}1: {aug}",
+                self.violated("L4", MOD, rp.name, cons, rp, f"occurrences in {w[3]} do not change the coefficient by exactly {'-' if w[1] == 'Sub' else '+'}1: {got4}",
                               witness="2 A -> B: the isotopomer reaction consumes one A instead of two")
 
         self.l8(mod)
